@@ -35,7 +35,7 @@ type Op struct {
 
 func (o Op) String() string {
 	switch o.K {
-	case "sub", "mark", "unmark":
+	case "sub", "subw", "mark", "unmark":
 		return o.K + "(" + o.L + ")"
 	case "cleand", "reloadd":
 		return fmt.Sprintf("%s(%d)", o.K, o.D)
@@ -95,6 +95,8 @@ type World struct {
 	Submitted map[string]bool
 	Marked    []bitcoin.Hash32 // model of the invalid list (order of marking)
 	Forgot    bool             // memory was reduced by a small-depth prune or a reload
+	MinDepth  int              // smallest prune depth applied so far (0: never pruned)
+	Removed   []string         // labels removed from the accepted set by marking (with descendants)
 	Anomalies []string         // model-level anomalies (accepted header with unaccepted parent, ...)
 
 	SavedWork *big.Int // cumulative work of the reported tip at the last completed Save (nil: none)
@@ -139,7 +141,8 @@ func (w *World) headersConfig() *headers.Config {
 	return c
 }
 
-func (w *World) newRepo() *headers.Repository {
+// NewRepo creates a fresh repository instance on the world's storage (not yet loaded).
+func (w *World) NewRepo() *headers.Repository {
 	repo := headers.NewRepository(w.headersConfig(), w.Store)
 	repo.DisableDifficulty()
 	applySplits(repo, w.Cfg.Splits)
@@ -155,18 +158,20 @@ func NewWorld(cfg Config) (*World, error) {
 		w.Store = b.Store.Clone()
 		w.Tree = ref.NewTree()
 		w.Tree.Shared = b.Nodes
-		w.Repo = w.newRepo()
+		w.Repo = w.NewRepo()
 		if err, p := Safe(func() error { return w.Repo.Load(w.Ctx) }); err != nil || p != "" {
 			return nil, fmt.Errorf("base load: %v %s", err, p)
 		}
 		w.SavedWork = b.Tip.Work
+		w.Tree.SharedTip = b.Tip
 		w.Forgot = true
+		w.notePrune(10000)
 	} else {
 		w.Store = vstore.New()
 		w.Tree = ref.NewTree()
 		g := Genesis()
 		w.Tree.AddRoot(RH(g.Hash), 0, g.Header.Bits, ref.WorkForBits(g.Header.Bits), "G")
-		w.Repo = w.newRepo()
+		w.Repo = w.NewRepo()
 		if cfg.InitLoad {
 			if err, p := Safe(func() error { return w.Repo.Load(w.Ctx) }); err != nil || p != "" {
 				return nil, fmt.Errorf("initial load: %v %s", err, p)
@@ -212,11 +217,17 @@ func (w *World) isMarked(h bitcoin.Hash32) bool {
 func (w *World) Apply(op Op) *Step {
 	st := Step{Op: op, PreTip: w.tipHash()}
 	switch op.K {
-	case "sub":
+	case "sub", "subw":
 		u := Get(op.L)
 		st.Known = w.Tree.Get(RH(u.Hash)) != nil
 		hc := u.Header.Copy()
+		if op.K == "subw" { // proof-of-work checking on for this one submission
+			w.Repo.EnableDifficulty()
+		}
 		err, p := Safe(func() error { return w.Repo.ProcessHeader(w.Ctx, &hc) })
+		if op.K == "subw" {
+			w.Repo.DisableDifficulty()
+		}
 		st.Panic = p
 		st.Class = classify(err)
 		if err != nil {
@@ -240,6 +251,7 @@ func (w *World) Apply(op Op) *Step {
 			}
 		}
 	case "clean":
+		w.notePrune(10000)
 		w.Store.StartLog()
 		err, p := Safe(func() error { return w.Repo.Clean(w.Ctx) })
 		st.Mutated = w.Store.StopLog()
@@ -256,6 +268,7 @@ func (w *World) Apply(op Op) *Step {
 			st.Err = err.Error()
 		}
 		w.Forgot = true
+		w.notePrune(op.D)
 	case "save":
 		w.Store.StartLog()
 		err, p := Safe(func() error { return w.Repo.Save(w.Ctx) })
@@ -273,14 +286,16 @@ func (w *World) Apply(op Op) *Step {
 		st.Mutated = w.Store.StopLog()
 		if err == nil && p == "" {
 			w.noteSaved()
-			w.Repo = w.newRepo()
+			w.Repo = w.NewRepo()
 			w.Subs = nil // subscriptions belong to the old instance
 			if op.K == "reload" {
+				w.notePrune(10000)
 				err, p = Safe(func() error { return w.Repo.Load(w.Ctx) })
 			} else {
+				w.notePrune(op.D)
 				err, p = Safe(func() error { return w.Repo.VerifLoad(w.Ctx, op.D) })
+				w.Forgot = true
 			}
-			w.Forgot = true
 		}
 		st.Panic = p
 		if err != nil {
@@ -300,6 +315,11 @@ func (w *World) Apply(op Op) *Step {
 		}
 		if !w.isMarked(h) {
 			w.Marked = append(w.Marked, h)
+		}
+		for _, n := range w.Tree.Sorted() {
+			if n.HasAncestorOrSelf(RH(h)) {
+				w.Removed = append(w.Removed, n.Label)
+			}
 		}
 		w.Tree.Remove(RH(h))
 	case "unmark":
@@ -345,6 +365,12 @@ func (w *World) Apply(op Op) *Step {
 	st.PostTip = w.tipHash()
 	w.Steps = append(w.Steps, st)
 	return &w.Steps[len(w.Steps)-1]
+}
+
+func (w *World) notePrune(d int) {
+	if w.MinDepth == 0 || d < w.MinDepth {
+		w.MinDepth = d
+	}
 }
 
 func (w *World) noteSaved() {
